@@ -28,6 +28,9 @@ COQ = os.path.join(VERIF, "coq")
 HARNESS = os.path.join(VERIF, "harness")
 REPO = os.environ.get("VERIF_REPO", "/repo")
 NCPU = min(16, os.cpu_count() or 4)
+# evidence/ and replays/ of runs against a scratch tree (VERIF_REPO set) go elsewhere, so that the
+# committed evidence always comes from /repo itself
+OUT = VERIF if REPO == "/repo" else os.environ.get("VERIF_OUT", "/tmp/verif-out-" + hashlib.sha1(REPO.encode()).hexdigest()[:8])
 
 GOENV = dict(os.environ, GOFLAGS="-mod=mod", GOPROXY="off", GOSUMDB="off", GOTOOLCHAIN="local",
              CGO_ENABLED="0")
@@ -102,8 +105,18 @@ def coq_lock():
 
 
 def ensure_makefile(coqdir):
-    mk = os.path.join(coqdir, "Makefile")
+    """_CoqProject lists every .v file under Base/ Model/ Proofs/ Properties/ Corr/ (regenerated when
+    the set of files changes); the Makefile is regenerated with it."""
+    files = []
+    for d in ("Base", "Model", "Proofs", "Properties", "Corr"):
+        dd = os.path.join(coqdir, d)
+        if os.path.isdir(dd):
+            files += sorted(os.path.join(d, f) for f in os.listdir(dd) if f.endswith(".v"))
+    want = "-Q . NP\n" + "\n".join(files) + "\n"
     cp = os.path.join(coqdir, "_CoqProject")
+    mk = os.path.join(coqdir, "Makefile")
+    if not os.path.exists(cp) or open(cp).read() != want:
+        open(cp, "w").write(want)
     if not os.path.exists(mk) or os.path.getmtime(mk) < os.path.getmtime(cp):
         sh("coq_makefile -f _CoqProject -o Makefile", cwd=coqdir, check=True)
 
@@ -236,8 +249,15 @@ def sleep_overlay(tmpdir):
 def build_driver(name, tmpdir, overlay=None, race=False, extra_overlay=None):
     """go build of harness/cmd/<name> against /repo's working tree.  Returns (path, error)."""
     out = os.path.join(tmpdir, name)
-    shutil.copyfile(os.path.join(REPO, "go.sum"), os.path.join(HARNESS, "go.sum"))
-    cmd = ["go", "build"]
+    # private go.mod whose replace directive points at the tree under test (normally /repo)
+    modfile = os.path.join(tmpdir, "go.mod")
+    gm = open(os.path.join(HARNESS, "go.mod")).read().replace("=> /repo", "=> " + REPO)
+    open(modfile, "w").write(gm)
+    try:
+        shutil.copyfile(os.path.join(REPO, "go.sum"), os.path.join(tmpdir, "go.sum"))
+    except OSError:
+        open(os.path.join(tmpdir, "go.sum"), "w").close()
+    cmd = ["go", "build", "-modfile=" + modfile]
     env = dict(GOENV)
     if race:
         cmd.append("-race")
@@ -321,16 +341,16 @@ def load_known():
 
 
 def write_evidence(prop_id, ev):
-    os.makedirs(os.path.join(VERIF, "evidence"), exist_ok=True)
-    p = os.path.join(VERIF, "evidence", prop_id + ".json")
+    os.makedirs(os.path.join(OUT, "evidence"), exist_ok=True)
+    p = os.path.join(OUT, "evidence", prop_id + ".json")
     json.dump(ev, open(p, "w"), indent=1)
     return p
 
 
 def write_replay(prop_id, seed, payload):
-    os.makedirs(os.path.join(VERIF, "replays"), exist_ok=True)
+    os.makedirs(os.path.join(OUT, "replays"), exist_ok=True)
     h = hashlib.sha1(json.dumps(payload, sort_keys=True).encode()).hexdigest()[:8]
-    p = os.path.join(VERIF, "replays", "%s-%s-%s.json" % (prop_id, seed, h))
+    p = os.path.join(OUT, "replays", "%s-%s-%s.json" % (prop_id, seed, h))
     json.dump(payload, open(p, "w"), indent=1)
     return p
 
